@@ -1,5 +1,5 @@
 (* C15: evaluation of the model on recorded cases (correspondence check). *)
-From CJ Require Import Common.Base C15.Model.
+From CJ Require Import Common.Base C15.Model C15.ModelName.
 
 Definition obs := (bool * bytes * bool * bytes)%type.
 
@@ -31,5 +31,74 @@ Definition obs_matches (a : obs) (b : obs_spec) : bool :=
   let '(a1, a2, a3, a4) := a in let '(b1, b2, b3, b4) := b in
   Bool.eqb a1 b1 && bspec_matches b2 a2 && Bool.eqb a3 b3 && bspec_matches b4 a4.
 
-Definition chk (c : N * bspec * obs_spec) : bool :=
+Definition chk_fmt (c : N * bspec * obs_spec) : bool :=
   let '(op, d, o) := c in obs_matches (model op (bspec_val d)) o.
+
+(* ---- names ---- *)
+(* error classes as numbers: 0 = no error *)
+Definition name_err_code (e : name_err) : N :=
+  match e with EZeroLabel => 1 | ELabelTooLong => 2 | ENameTooLong => 3 end.
+Definition rd_err_code (e : rd_err) : N :=
+  match e with EEof => 1 | EReserved => 2 | ETooManyPtr => 3 | ERdNameTooLong => 4 | ETrailing => 5 end.
+Definition panic_code : N := 99.
+
+(* observed: (error class of NewName, bytes written, error class of readName, labels read, reader position) *)
+Definition name_rt_obs := (N * bytes * N * name * N)%type.
+Definition model_name_rt (n : name) : name_rt_obs :=
+  match new_name n with
+  | Err e => (name_err_code e, [], 0, [], 0)
+  | Panic => (panic_code, [], 0, [], 0)
+  | Ok n' =>
+    let w := fst (write_name [] 0 n') in
+    match read_name w 0 with
+    | Ok (n2, p) => (0, w, 0, n2, p)
+    | Err e => (0, w, rd_err_code e, [], 0)
+    | Panic => (0, w, panic_code, [], 0)
+    end
+  end.
+Definition name_rt_eqb (a b : name_rt_obs) : bool :=
+  let '(a1, a2, a3, a4, a5) := a in let '(b1, b2, b3, b4, b5) := b in
+  (a1 =? b1) && bytes_eqb a2 b2 && (a3 =? b3) && name_eqb a4 b4 && (a5 =? b5).
+
+(* observed: (error class, labels, position) *)
+Definition read_name_obs := (N * name * N)%type.
+Definition model_read_name (d : bytes) (pos : N) : read_name_obs :=
+  match read_name d pos with
+  | Ok (n, p) => (0, n, p)
+  | Err e => (rd_err_code e, [], 0)
+  | Panic => (panic_code, [], 0)
+  end.
+Definition read_name_eqb (a b : read_name_obs) : bool :=
+  let '(a1, a2, a3) := a in let '(b1, b2, b3) := b in
+  (a1 =? b1) && name_eqb a2 b2 && (a3 =? b3).
+
+Definition model_trim (n s : name) : bool * name :=
+  match trim_suffix n s with Some p => (true, p) | None => (false, []) end.
+
+(* send: e = the observed coding of the payload (lower-case base32, abstract in the
+   model); the observable is whether the requester could build the query name and
+   which one it built *)
+Definition model_send_name (e : bytes) (dom : name) : N * name :=
+  match new_name (chunks 63 e ++ dom) with
+  | Ok n => (0, n)
+  | Err er => (name_err_code er, [])
+  | Panic => (panic_code, [])
+  end.
+
+Inductive vcase :=
+| CFmt (op : N) (d : bspec) (o : obs_spec)
+| CNameRt (n : name) (o : name_rt_obs)
+| CReadName (d : bytes) (pos : N) (o : read_name_obs)
+| CTrim (n s : name) (ok : bool) (pre : name)
+| CChunks (d : bspec) (n : N) (out : list bytes)
+| CSendName (e : bytes) (dom : name) (code : N) (qname : name).
+
+Definition chk (c : vcase) : bool :=
+  match c with
+  | CFmt op d o => chk_fmt (op, d, o)
+  | CNameRt n o => name_rt_eqb (model_name_rt n) o
+  | CReadName d pos o => read_name_eqb (model_read_name d pos) o
+  | CTrim n s ok pre => let '(ok', pre') := model_trim n s in Bool.eqb ok ok' && name_eqb pre pre'
+  | CChunks d n out => name_eqb (chunks n (bspec_val d)) out
+  | CSendName e dom code qn => let '(c', n') := model_send_name e dom in (code =? c') && name_eqb qn n'
+  end.
